@@ -1,7 +1,164 @@
 import ScVerif.Base.Line
-/-! Driver handler for C17 (stub: replaced by the property's owner). -/
-namespace ScVerif.C17
+import ScVerif.C17.Threads
+/-!
+Driver handler for C17.
 
-def handle (_toks : List String) : String := "!bad-op"
+Request: `exec <api> <strategy> <allowed> <n> <members> <order> <parentCancel>`
+* api `x` = `group.Execute(strategy)`, `d` = the strategy's own function;
+* members: `,`-separated `msg.err` or `msg.err/msg.err` (cancellation-aware: second response when the
+  context is found cancelled), `mK`/`eK`/`-` for message K / error K / nil; `-` for no members;
+* order: `,`-separated permutation of member indices (`-` if empty); parentCancel: `-` or `k` = the
+  caller's context is cancelled after `k` completions.
+
+Answer (same format as the Go harness prints for the real code):
+`res=[..] err=E ret=K cancel=BITS seen=S inv=I left=L` or `msg=M idx=I err=E ret=…`.
+The parallel strategies are run through the thread-level model under the serial schedule the harness
+realises (`block`), `one` through `oneLoop`.
+-/
+namespace ScVerif.C17
+open ScVerif.Line
+
+def parseLab? (p : Char) (s : String) : Option (Option Nat) :=
+  if s = "-" then some none
+  else match s.toList with
+    | c :: rest => if c = p then (String.ofList rest).toNat?.map some else none
+    | [] => none
+
+def parseResp? (s : String) : Option Resp :=
+  match s.splitOn "." with
+  | [m, e] => do
+    let m ← parseLab? 'm' m
+    let e ← parseLab? 'e' e
+    pure ⟨m, e⟩
+  | _ => none
+
+def parseBeh? (s : String) : Option Beh :=
+  match s.splitOn "/" with
+  | [a] => do pure ⟨← parseResp? a, none⟩
+  | [a, b] => do pure ⟨← parseResp? a, some (← parseResp? b)⟩
+  | _ => none
+
+def parseList? (f : String → Option α) (s : String) : Option (List α) :=
+  if s = "-" then some [] else (s.splitOn ",").mapM f
+
+def showLab (p : String) : Option Nat → String
+  | none => "-"
+  | some k => p ++ toString k
+
+def showErr : Option Err → String
+  | none => "-"
+  | some (.member k) => "e" ++ toString k
+  | some .noResponse => "noresp"
+
+def showMany (m : Many) : String :=
+  "res=[" ++ ",".intercalate (m.results.map (showLab "m")) ++ "] err=" ++ showErr m.err
+
+def showSingle (s : Single) : String :=
+  "msg=" ++ showLab "m" s.msg ++ " idx=" ++ toString s.idx ++ " err=" ++ showErr s.err
+
+def dash (s : String) : String := if s = "" then "-" else s
+
+def showBit (b : Bool) : String := if b then "1" else "0"
+
+structure Trace (ρ : Type) where
+  result : Option ρ
+  ret : Option Nat
+  cancel : List Bool
+  seen : List (Option Bool)
+  left : Nat
+
+def observe (c : Config σ ρ) (k : Nat) (tr : Trace ρ) : Trace ρ :=
+  { tr with
+    cancel := tr.cancel ++ [c.cancelled]
+    ret := match tr.ret, c.cons with
+      | none, .returned _ _ => some k
+      | r, _ => r }
+
+def serialGo (C : Consumer σ ρ) (pc : Option Nat) : Nat → List Nat → Config σ ρ → Trace ρ → Config σ ρ × Trace ρ
+  | _, [], c, tr => (c, tr)
+  | k, i :: rest, c, tr =>
+    let c := if pc = some k then stepD C c .env else c
+    let tr := { tr with seen := tr.seen.set i (some c.cancelled) }
+    let c := exec C c (block i)
+    serialGo C pc (k + 1) rest c (observe c (k + 1) tr)
+
+/-- The thread-level model under the harness' schedule, with what the harness observes. -/
+def runSerial (C : Consumer σ ρ) (behs : List Beh) (order : List Nat) (pc : Option Nat) : Trace ρ :=
+  let c0 := exec C (Config.spawn C behs) settle
+  let tr0 := observe c0 0 ⟨none, none, [], List.replicate behs.length none, 0⟩
+  let (c, tr) := serialGo C pc 0 order c0 tr0
+  { tr with
+    result := match c.cons with
+      | .returned x _ => some x
+      | _ => none
+    left := c.alive }
+
+def showSeen (xs : List (Option Bool)) : String :=
+  dash (String.join (xs.map fun | none => "-" | some b => showBit b))
+
+def showNats (xs : List Nat) : String := dash (",".intercalate (xs.map toString))
+
+def showTrace (n : Nat) (out : Option String) (tr : Trace ρ) (inv : List Nat) : String :=
+  (out.getD "noreturn") ++ " ret=" ++ (match tr.ret with | none => "-" | some k => toString k)
+    ++ " cancel=" ++ (if n = 0 then "-" else String.join (tr.cancel.map showBit))
+    ++ " seen=" ++ showSeen tr.seen ++ " inv=" ++ showNats inv ++ " left=" ++ toString tr.left
+
+/-- position of `i` in `order` -/
+def posOf (order : List Nat) (i : Nat) : Nat := order.idxOf i
+
+/-- `ExecuteOne` under gated members: member `i` is called once members `0..i-1` have failed and it
+returns once its own gate is open, i.e. after release number `max_{j ≤ i} pos j`. -/
+def runOne (behs : List Beh) (order : List Nat) (pc : Option Nat) : Single × Trace Single × List Nat :=
+  let n := behs.length
+  let runAt : List Nat := (List.range n).map fun i => ((List.range (i + 1)).map (posOf order)).foldl max 0
+  let saw : List Bool := runAt.map fun p => match pc with | some k => decide (k ≤ p) | none => false
+  let outs : List Resp := (List.range n).map fun i => (behs.getD i ⟨default, none⟩).respond (saw.getD i false)
+  let (res, tried) := oneLoop 0 none outs
+  let ret := if n = 0 then 0 else runAt.getD (tried - 1) 0 + 1
+  let cancel := (List.range (n + 1)).map fun k => match pc with | some p => decide (p < k) | none => false
+  let seen := (List.range n).map fun i => if i < tried then some (saw.getD i false) else none
+  (res, ⟨some res, some ret, cancel, seen, 0⟩, List.range tried)
+
+def runMany (n : Nat) (a : Int) (behs : List Beh) (order : List Nat) (pc : Option Nat) : String :=
+  let tr := runSerial (upTo n a) behs order pc
+  showTrace n (tr.result.map showMany) tr (List.range n)
+
+def runSingle (C : Consumer σ Single) (api : String) (n : Nat) (behs : List Beh) (order : List Nat) (pc : Option Nat) : String :=
+  let tr := runSerial C behs order pc
+  let out := tr.result.map fun s => if api = "x" then showMany (singleResult n s) else showSingle s
+  showTrace n out tr (List.range n)
+
+def handleExec (api strat : String) (allowed : Int) (behs : List Beh) (order : List Nat) (pc : Option Nat) : Option String :=
+  let n := behs.length
+  match api, strat with
+  | "x", "unspec" | "x", "other" | _, "all" => some (runMany n (allowedAll n) behs order pc)
+  | _, "most" => some (runMany n (allowedMost n) behs order pc)
+  | _, "any" => some (runMany n (allowedAny n) behs order pc)
+  | "d", "upto" => some (runMany n allowed behs order pc)
+  | _, "fast" => some (runSingle fast api n behs order pc)
+  | _, "race" => some (runSingle race api n behs order pc)
+  | _, "one" =>
+    let (res, tr, inv) := runOne behs order pc
+    let out := if api = "x" then showMany (singleResult n res) else showSingle res
+    some (showTrace n (some out) tr inv)
+  | _, _ => none
+
+def isPerm (order : List Nat) (n : Nat) : Bool :=
+  order.length == n && (List.range n).all fun i => order.contains i
+
+def handle (toks : List String) : String :=
+  match toks with
+  | ["exec", api, strat, allowed, n, behs, order, pc] =>
+    let r : Option String := do
+      let allowed ← parseInt? allowed
+      let n ← parseNat? n
+      let behs ← parseList? parseBeh? behs
+      let order ← parseList? parseNat? order
+      let pc ← if pc = "-" then some none else (parseNat? pc).map some
+      if api ≠ "x" && api ≠ "d" then none
+      if behs.length ≠ n || !isPerm order n then none
+      handleExec api strat allowed behs order pc
+    r.getD "!bad-op"
+  | _ => "!bad-op"
 
 end ScVerif.C17
